@@ -124,7 +124,7 @@ class Fam:
         elif kind == 'EC':
             G = fg.EllipticCurve(spec[1], spec[2])
             fam = 'Ed' if spec[1].startswith('Ed') else 'W'
-            self.key, self.name = f'{fam}/{spec[2]}', f'{spec[1]}/{spec[2]}'
+            self.key, self.name = f'{fam}/{spec[2]}' + ('/GF(p^2)' if spec[1] == 'BN256_twist' else ''), f'{spec[1]}/{spec[2]}'
             self.dom = [0, 1, -1, 2, -2, 3, 'N2']      # 'N2': 2G in normalised coordinates (2: as the plain doubling leaves it)
             self.mpdom = [0, 1, -1, 2, 'N2']
             self.order = G.order
